@@ -4,6 +4,7 @@
 # ########################################### #
 
 import logging
+import operator
 
 import numpy as np
 
@@ -161,7 +162,11 @@ def mk_order(order, shape):
 
 
 def get_offset(idx, strides):
-    return sum(ii * ss for ii, ss in zip(idx, strides))
+    # python integers: numpy integers of a narrow type (an index taken from an
+    # int8/int16 array) would wrap around in the product
+    return sum(
+        operator.index(ii) * operator.index(ss) for ii, ss in zip(idx, strides)
+    )
 
 
 def bound_check(index, shape):
